@@ -1061,6 +1061,14 @@ pub fn async_bai(file: Vec<u8>) -> Result<noodles_bam::bai::Index, String> {
 pub fn async_gzi(file: Vec<u8>) -> Result<bgzf::gzi::Index, String> {
     arun(move || block_on(async move { bgzf::gzi::r#async::io::Reader::new(&file[..]).read_index().await }))
 }
+/// async gzi reader on arbitrary bytes, keeping the io::ErrorKind ("Err:<kind>"; "Panic")
+pub fn async_gzi_kind(file: Vec<u8>) -> Result<bgzf::gzi::Index, String> {
+    match nv::guarded(move || block_on(async move { bgzf::gzi::r#async::io::Reader::new(&file[..]).read_index().await })) {
+        Outcome::Panicked(_) => Err("Panic".into()),
+        Outcome::Done(Err(e)) => Err(format!("Err:{:?}", e.kind())),
+        Outcome::Done(Ok(x)) => Ok(x),
+    }
+}
 pub fn async_fai(text: Vec<u8>) -> Result<noodles_fasta::fai::Index, String> {
     arun(move || block_on(async move { noodles_fasta::fai::r#async::io::Reader::new(&text[..]).read_index().await }))
 }
